@@ -1,10 +1,13 @@
 import TexelVerif.BookBuild.Witness
 import TexelVerif.BookBuild.AddPos
+import TexelVerif.BookBuild.Reload
+import TexelVerif.BookBuild.Serial
 /-!
 # C19 — book-builder graph scores stay at their defined fixed point
 
 Property theorems only; the model is `TexelVerif/BookBuild/{Basic,Update,Link}.lean`, the proofs are in
-`BookBuild/{Propagate,Invariant,Preserve,UpdateSpec,Ops,Depth,LinkSpec,AddLink,LinkNew,AddPos,Witness}.lean`.
+`BookBuild/{Propagate,Invariant,Preserve,UpdateSpec,Ops,Depth,LinkSpec,AddLink,LinkNew,AddPos,Distance,Unique,Init,
+Reload,Serial,Witness}.lean`.
 
 `fixed := true` is the algorithm of the tree *after* the commit `fix: BookNode::updateScores also queues the changed
 node itself for the path-error pass`; `fixed := false` is the algorithm as found.  The line-protocol driver
@@ -63,6 +66,39 @@ theorem updateScores_reaches_fixedpoint (b : Book) (start : Nat) (hS : StructOk 
   refine ⟨updateScores_fixedPoint b start hS hs hnm hpe, ?_⟩
   obtain ⟨r, hr⟩ := hS.acyclic
   exact (updateScores_spec b start r hS.wf hr hs hnm hpe).1
+
+/-- The local depth equation of `FixedPoint` means "length of a shortest chain of child links from the root". -/
+theorem depth_is_shortest_distance (b : Book) (h : FixedPoint b) (j : Nat) (hj : j < b.size) :
+    Path b 0 j (b.nd j).depth ∧ ∀ len, Path b 0 j len → (b.nd j).depth ≤ len :=
+  depth_is_distance b h.struct j hj
+
+/-- The fixed point is well defined: the stored fields of every node, the links, the pending set and the cost constants
+    determine depth, negamax score, expansion costs and path errors of every node. -/
+theorem fixedpoint_unique (b1 b2 : Book) (h1 : FixedPoint b1) (h2 : FixedPoint b2) (hg : SameGiven b1 b2) : b1 = b2 :=
+  fixedPoint_unique b1 b2 h1 h2 hg
+
+/-- `readFromFile`'s `root->updateScores` on freshly deserialised scores (all negamax scores INVALID) reaches the fixed
+    point on any structurally sound book (this is the `updateChildren` branch of `updateNegaMax`, which the other
+    operations never enter on a book at its fixed point). -/
+theorem updateScores_from_fresh_reaches_fixedpoint (b : Book) (hS : StructOk b)
+    (hfresh : ∀ j, j < b.size → (b.nd j).nm = INVALID) (hpe : ∀ j, j < b.size → j ≠ 0 → peOk b j) :
+    FixedPoint (updateScores true b 0) :=
+  (updateScores_init b hS hfresh hpe).1
+
+/-- Save + reload reproduces the same graph and scores (nothing pending: `readFromFile` clears the pending set).
+    PARTIAL: the hypothesis `RelinkedAs b (relinked b)` — the depth-first relinking pass `initPos` (the model of
+    `Book::initPositions`/`setChildRefs`) restores exactly the old links, yields a structurally sound book and leaves
+    the stored fields and the fresh scores alone — is NOT proven here; it is exercised by the differential
+    (`book reload`) only.  Full statement: `FixedPoint b → b.pending = [] → reload true b = b`. -/
+theorem reload_roundtrip_partial (b : Book) (h : FixedPoint b) (hp : b.pending = []) (hL : RelinkedAs b (relinked b)) :
+    reload true b = b :=
+  Bk.reload_roundtrip_partial b h hp hL
+
+/-- The 16-byte record: reading back what `serialize` wrote gives the four stored fields (U64 key, U16 move,
+    S16 score, U32 time; little-endian host). -/
+theorem record_roundtrip (r : Rec) (hk : r.key < 2 ^ 64) (hm : r.move < 2 ^ 16) (hs1 : -32768 ≤ r.score)
+    (hs2 : r.score ≤ 32767) (ht : r.time < 2 ^ 32) : Rec.decode r.encode = some r :=
+  decode_encode r hk hm hs1 hs2 ht
 
 /-- The algorithm as found leaves the book off its fixed point: after the 4-node history of `witnessRun`
     node A's path error violates its defining equation. -/
